@@ -39,6 +39,7 @@ class Survey:
         self.vec_cov_band = 1
         self.extra_desc = "session"
         self.allopt = net.get("allopt", [])
+        self.feat = set()            # optional forms of the input language (edit InputFeatures)
 
     # ---------------------------------------------------------------- geometry
     def pt(self, pid):
@@ -180,6 +181,10 @@ class Survey:
                     e["from_dh"] = "%.4f" % o["fdh"]
                 if o["tdh"]:
                     e["to_dh"] = "%.4f" % o["tdh"]
+                if "dir_dh" in self.feat and o["t"] == "direction":
+                    e["from_dh"], e["to_dh"] = "1.4500", "%.4f" % (1.2 + 0.1 * (len(ol) % 3))
+                if "extern" in self.feat:
+                    e["extern"] = "x%d" % len(ol)
                 ol.append(e)
             if rnd:
                 rnd.shuffle(ol)
@@ -187,6 +192,14 @@ class Survey:
         dhs = [o for o in self.obs if o["t"] == "dh"]
         if dhs:
             ol = [{"from": self.name(o["fr"]), "to": self.name(o["to"]), "val": "%.8f" % self.value(o), "stdev": "%.4f" % STDEV["dh"]} for o in dhs]
+            if "dh_dist" in self.feat or "dh_dist_only" in self.feat:
+                for k_, e_ in enumerate(ol):
+                    e_["dist"] = "%.4f" % (0.25 + 0.1 * k_)              # km
+                    if "dh_dist_only" in self.feat:
+                        del e_["stdev"]
+            if "extern" in self.feat:
+                for k_, e_ in enumerate(ol):
+                    e_["extern"] = "dh-%d" % k_
             if rnd:
                 rnd.shuffle(ol)
             clusters.append({"type": "hdiffs", "obs": ol})
@@ -216,6 +229,16 @@ class Survey:
             dim = 3 * len(pl)
             el = ["9"] * dim
             clusters.append({"type": "coords", "points": pl, "cov": {"dim": dim, "band": 0, "el": el}})
+        if "coords_split" in self.feat:
+            unk = [p for p in self.pts if p["role"] == "unk"]
+            if len(unk) >= 2 and self.dim == 3:
+                a, b = unk[0], unk[1]
+                xa, ya, _ = self.describe(self.enu(a["id"]))
+                _, _, zb = self.describe(self.enu(b["id"]))
+                nz = 0.001 * self.noise
+                clusters.append({"type": "coords", "points": [{"id": self.name(a["id"]), "x": "%.8f" % (xa + nz), "y": "%.8f" % (ya - nz)},
+                                                              {"id": self.name(b["id"]), "z": "%.8f" % (zb + nz)}],
+                                 "cov": {"dim": 3, "band": 0, "el": ["9", "9", "9"]}})
         if self.t in ("vecmix3d", "freevec3d"):
             # these templates exist for the numbering of unknowns by vectors between two new points: vector clusters come first
             clusters.sort(key=lambda c: 0 if c["type"] == "vectors" else 1)
@@ -450,6 +473,8 @@ def apply_edit(sv, e):
             s.obs.append(dict(t=o["t"], fr=o["from"], to=o["to"], to2=o["to2"], k=len(s.obs), fdh=0.0, tdh=0.0, swap=False, passive=False))
         for st in sorted(set(o["fr"] for o in s.obs if o["t"] == "direction")):
             s.orient.setdefault(st, 12.3456)
+    elif k == "InputFeatures":
+        s.feat = set(sv.feat) | {{1: "coords_split", 2: "dh_dist", 3: "dh_dist_only", 4: "dir_dh", 5: "extern"}[e["s"]]}
     elif k == "AttachHeights":
         for i, o in enumerate(s.obs):
             if o["t"] in ("s-distance", "z-angle"):
